@@ -51,6 +51,42 @@ func (g *Global) addLeafMods(out map[string]modInfo, kind LocKind, prefix string
 			addMod(out, prefix+lf.suffix, arr1(lf.sort), mutates)
 		}
 	}
+	g.noteKinds(prefix, t)
+}
+
+// noteKinds records what the cells of a heap variable hold (derived from the static type), independent of access order.
+func (g *Global) noteKinds(prefix string, t types.Type) {
+	if g.heapKinds == nil {
+		g.heapKinds = map[string]string{}
+	}
+	switch kindOf(t) {
+	case kInt:
+		if _, done := g.heapKinds[prefix]; done {
+			return
+		}
+		if lo, hi, ok := intRange(t); ok {
+			g.heapKinds[prefix] = "int:" + lo + ":" + hi
+		} else if isString(t) {
+			g.heapKinds[prefix] = "nonneg"
+		} else {
+			g.heapKinds[prefix] = "ref"
+		}
+	case kSlice:
+		g.heapKinds[prefix+"#arr"] = "ref"
+		g.heapKinds[prefix+"#off"] = "nonneg"
+		g.heapKinds[prefix+"#len"] = "int:0:2147483648"
+		g.heapKinds[prefix+"#cap"] = "int:0:2147483648"
+	case kIface:
+		g.heapKinds[prefix+"#tag"] = "nonneg"
+	case kStruct:
+		if st, ok := t.Underlying().(*types.Struct); ok {
+			for i := 0; i < st.NumFields(); i++ {
+				if !g.ignoredField(t, st.Field(i)) {
+					g.noteKinds(prefix+"."+st.Field(i).Name(), st.Field(i).Type())
+				}
+			}
+		}
+	}
 }
 
 func (g *Global) addMapMods(out map[string]modInfo, mt *types.Map, mutates bool) {
@@ -60,6 +96,7 @@ func (g *Global) addMapMods(out map[string]modInfo, mt *types.Map, mutates bool)
 	for _, lf := range g.leavesOfT(mt.Elem()) {
 		addMod(out, p+"#val"+lf.suffix, arr2(lf.sort), mutates)
 	}
+	g.noteKinds(p+"#val", mt.Elem())
 }
 
 // isFreshBase: the address is derived from an allocation made in the same function.
